@@ -495,7 +495,16 @@ func xcheck(prop string, base int64, other string, n int) (int, string, error) {
 	if len(a) != n || len(b) != n {
 		return 0, "", fmt.Errorf("got %d / %d runs, want %d", len(a), len(b), n)
 	}
+	violated := func(rec string) bool { // "<seed>:<digest>:<blocks>:<violation signature or empty>"
+		j := strings.LastIndex(rec, ":")
+		return j >= 0 && j+1 < len(rec)
+	}
 	for i := range a {
+		if violated(a[i]) || violated(b[i]) {
+			// a run that violates the property itself (e.g. map-order dependent state) cannot be expected to
+			// give equal digests in two builds: such runs are the ordinary runs' business, not a fidelity issue
+			continue
+		}
 		if a[i] != b[i] {
 			return i, fmt.Sprintf("seed/digest/blocks %s (this build) vs %s (%s)", a[i], b[i], other), nil
 		}
